@@ -309,6 +309,7 @@ class Pipeline:
                 except BaseException as e:
                     if not isinstance(e, asyncio.CancelledError):
                         env.log('pipeline-error', op=self.opid, error=repr(e))
+            env.log('pipeline-exit', op=self.opid)
 
     def start(self) -> Any:
         self.task = self.env.spawn(self.opid, self._main(), name=f'pipeline {self.opid}')
